@@ -325,6 +325,24 @@ def run(repo: Repo, rep: Report) -> None:  # noqa: F811
              "from (the store / graph being written, the base), or re-binding that attribute invalidates the memo", floor=4)
     memo.scan(repo, rep, "C03.f-serializer-memos-key-complete", sorted(m for m in repo.modules if m.startswith("rdflib.plugins.serializers.")))
 
+    # (k) no stale loop variable in serializers
+    from vlib.loops import stale_loop_variable_reads
+
+    rep.rule("C03.k-no-stale-loop-variable",
+             "in the serializer modules no loop reads a name whose only bindings are the targets of earlier, already finished loops of the same function: it would see that "
+             "loop's last element in every iteration (a `for bnode in bnodes: self.subject(subject, 1)` writes one subject n times and the others never)", floor=20)
+    for modname in sorted(m for m in repo.modules if m.startswith("rdflib.plugins.serializers.")):
+        mod = repo.mod(modname)
+        for q, f in mod.functions():
+            fl = [n for n in own_nodes(f) if isinstance(n, (ast.For, ast.AsyncFor))]
+            if len(fl) < 2:
+                continue
+            stale = dict((id(l), names_) for l, names_ in stale_loop_variable_reads(f))
+            for l in fl[1:]:
+                st = stale.get(id(l))
+                rep.ob("C03.k-no-stale-loop-variable", mod, q, "for %s in %s" % (norm(l.target), norm(l.iter)[:40]), st is None,
+                       "uses its own variables" if st is None else "the loop reads %s, bound only by an earlier loop that has finished: every iteration works on that loop's last element, the elements of this loop are never written" % st, node=l)
+
     # (g) JSON-LD: every subject is written
     rep.rule("C03.g-jsonld-every-subject-written",
              "JSON-LD serializer, Converter.from_graph: node objects are created by process_subject, which is reached from the top-level loop(s) over graph.subjects() and, "
